@@ -86,11 +86,13 @@ theorem WCtx.finishBatch_killC14b (c : WCtx) (b : List WReq) (t : Option WReq) (
     unfold WCtx.fb0
     rw [foldl_emit_killC14b]
     rfl
-  have h1 : (c.fb0 b ok).w.senderAlive = true := by simp [ha]
-  rw [h0]
-  cases t with
-  | none => exact WCtx.toRecv_killC14b _ h1
-  | some r => exact WCtx.nonFlush_killC14b _ r h1
+  have h2 : c.killC14b.fb1 b t ok = (c.fb1 b t ok).killC14b := by
+    unfold WCtx.fb1
+    rw [h0]
+    rfl
+  have h1 : (c.fb1 b t ok).w.senderAlive = true := by simp [ha]
+  rw [h2]
+  exact WCtx.nonFlush_killC14b _ _ h1
 
 theorem WCtx.startSync_killC14b (c : WCtx) (b : List WReq) (t : Option WReq)
     (ha : c.w.senderAlive = true) :
